@@ -62,7 +62,8 @@ package boltz
 //@   ensures[other-entries-kept] forallStr(k, k != old(uxNew(index, ctx)) ==> sel(bktHas[old(uxB2(index, ctx))], k) == sel(old(bktHas[uxB2(index, ctx)]), k))
 
 // ---- set index ----
-//@ define sxTree(base) = forallStr(k, sel(bktSub[base], k) != base)
+//@ define sxTree(base) = forallStr(k, sel(bktSub[base], k) != base && allocated(sel(bktSub[base], k))) && forallStr(k1, forallStr(k2, sel(bktSub[base], k1) != 0 && sel(bktSub[base], k1) == sel(bktSub[base], k2) ==> k1 == k2))
+//@ define sxNoEmpty(base, v) = sel(bktHas[base], v) && sel(bktSub[base], v) != 0 ==> keyCnt(bktHas[sel(bktSub[base], v)]) > 0
 // GetOrCreateBucket: the nested bucket under name - the existing one, or a fresh empty one; nothing else changes
 //@ func (*TypedBucket).GetOrCreateBucket
 //@   props C03
@@ -107,16 +108,26 @@ package boltz
 // assumed: reading a row's current set values changes nothing that existed before
 //@ func (*setIndex).getCurrentValues
 //@   pure
+// before the write: the row's current set values are remembered for this index and the index is not touched
+//@ func (*setIndex).ProcessBeforeUpdate
+//@   props C03
+//@   nosafety
+//@   modifies *
+//@   ensures[index-untouched] bktHas == old(bktHas) && bktVal == old(bktVal) && bktSub == old(bktSub)
+//@   ensures[remembers-the-old-values] !old(holderFailed[ctx.ErrHolder]) ==> has(ctx.SetStates, index)
+//@   ensures[pending-error-remembers-nothing] old(holderFailed[ctx.ErrHolder]) ==> has(ctx.SetStates, index) == old(has(ctx.SetStates, index))
 // before the delete: under every current value of the row, the row's entry is gone (and a value left without entries
 // loses its key)
 //@ func (*setIndex).ProcessBeforeDelete
 //@   props C03
 //@   nosafety
 //@   assume[index-bucket-initialised] sxBase(index, ctx) != 0
+//@   assume[buckets-form-a-tree] sxTree(sxBase(index, ctx))
 //@   modifies *
 //@   ensures[pending-error-does-nothing] old(holderFailed[ctx.ErrHolder]) ==> bktHas == old(bktHas) && bktSub == old(bktSub)
+//@   lensures[no-empty-key-left-behind] !old(holderFailed[ctx.ErrHolder]) && !holderFailed[ctx.ErrHolder] ==> forall(j, 0 <= j && j < len(values) ==> sxNoEmpty(sxBase(index, ctx), str(values[j].Value)))
 //@   lensures[row-removed-under-every-current-value] !old(holderFailed[ctx.ErrHolder]) && !holderFailed[ctx.ErrHolder] ==> forall(j, 0 <= j && j < len(values) ==> !sxMember(sxBase(index, ctx), str(values[j].Value), str(ctx.RowId)))
-//@   invariant 1: !holderFailed[ctx.ErrHolder] ==> forall(j, 0 <= j && j <= rangeindex ==> !sxMember(sxBase(index, ctx), str(values[j].Value), str(ctx.RowId)))
+//@   invariant 1: sxTree(sxBase(index, ctx)) && (!holderFailed[ctx.ErrHolder] ==> forall(j, 0 <= j && j <= rangeindex ==> !sxMember(sxBase(index, ctx), str(values[j].Value), str(ctx.RowId)) && sxNoEmpty(sxBase(index, ctx), str(values[j].Value))))
 // after the write: an unchanged value list does nothing; otherwise every new value lists the row
 //@ func (*setIndex).ProcessAfterUpdate
 //@   props C03
@@ -127,10 +138,112 @@ package boltz
 //@   ensures[pending-error-does-nothing] old(holderFailed[ctx.ErrHolder]) ==> bktHas == old(bktHas) && bktSub == old(bktSub)
 //@   lensures[unchanged-values-do-nothing] !changed ==> bktHas == old(bktHas) && bktSub == old(bktSub) && bktVal == old(bktVal)
 //@   lensures[every-new-value-lists-the-row] changed && !holderFailed[ctx.ErrHolder] ==> forall(j, 0 <= j && j < len(newValues) ==> sxMember(sxBase(index, ctx), str(newValues[j].Value), str(ctx.RowId)))
-//@   invariant 1: bktHas == old(bktHas) && bktSub == old(bktSub) && bktVal == old(bktVal) && !holderFailed[ctx.ErrHolder]
-//@   invariant 2: sxTree(sxBase(index, ctx))
-//@   invariant 3: sxTree(sxBase(index, ctx)) && (!holderFailed[ctx.ErrHolder] ==> forall(j, 0 <= j && j <= rangeindex ==> sxMember(sxBase(index, ctx), str(newValues[j].Value), str(ctx.RowId))))
-//@   invariant 4: !holderFailed[ctx.ErrHolder] ==> forall(j, 0 <= j && j < len(newValues) ==> sxMember(sxBase(index, ctx), str(newValues[j].Value), str(ctx.RowId)))
+//@   lensures[no-stale-value-and-no-empty-key] changed && !holderFailed[ctx.ErrHolder] ==> forall(j, 0 <= j && j < len(oldValues) ==> sxNoEmpty(sxBase(index, ctx), str(oldValues[j].Value)) && (forall(m, 0 <= m && m < len(newValues) ==> str(newValues[m].Value) != str(oldValues[j].Value)) ==> !sxMember(sxBase(index, ctx), str(oldValues[j].Value), str(ctx.RowId))))
+//@   lensures[unchanged-means-equal-value-lists] !changed ==> len(oldValues) == len(newValues) && forall(j, 0 <= j && j < len(oldValues) ==> str(oldValues[j].Value) == str(newValues[j].Value) && oldValues[j].FieldType == newValues[j].FieldType)
+//@   invariant 1: bktHas == old(bktHas) && bktSub == old(bktSub) && bktVal == old(bktVal) && !holderFailed[ctx.ErrHolder] && forall(j, 0 <= j && j <= rangeindex ==> str(oldValues[j].Value) == str(newValues[j].Value) && oldValues[j].FieldType == newValues[j].FieldType)
+//@   invariant 2: sxTree(sxBase(index, ctx)) && (!holderFailed[ctx.ErrHolder] ==> forall(j, 0 <= j && j <= rangeindex ==> !sxMember(sxBase(index, ctx), str(oldValues[j].Value), str(ctx.RowId)) && sxNoEmpty(sxBase(index, ctx), str(oldValues[j].Value))))
+//@   invariant[tree] 3: sxTree(sxBase(index, ctx))
+//@   invariant[new-values-listed] 3: !holderFailed[ctx.ErrHolder] ==> forall(j, 0 <= j && j <= rangeindex ==> sxMember(sxBase(index, ctx), str(newValues[j].Value), str(ctx.RowId)))
+//@   invariant[no-empty-key] 3: !holderFailed[ctx.ErrHolder] ==> forall(j, 0 <= j && j < len(oldValues) ==> sxNoEmpty(sxBase(index, ctx), str(oldValues[j].Value)))
+//@   invariant[stale-values-unlisted] 3: !holderFailed[ctx.ErrHolder] ==> forall(j, 0 <= j && j < len(oldValues) ==> (forall(m, 0 <= m && m <= rangeindex ==> str(newValues[m].Value) != str(oldValues[j].Value)) ==> !sxMember(sxBase(index, ctx), str(oldValues[j].Value), str(ctx.RowId))))
+//@   invariant 4: !holderFailed[ctx.ErrHolder] ==> forall(j, 0 <= j && j < len(newValues) ==> sxMember(sxBase(index, ctx), str(newValues[j].Value), str(ctx.RowId))) && forall(j, 0 <= j && j < len(oldValues) ==> sxNoEmpty(sxBase(index, ctx), str(oldValues[j].Value)) && (forall(m, 0 <= m && m < len(newValues) ==> str(newValues[m].Value) != str(oldValues[j].Value)) ==> !sxMember(sxBase(index, ctx), str(oldValues[j].Value), str(ctx.RowId))))
 //@ functype SetChangeListener(ctx, rowId, old, new, holder)
 //@   modifies holderFailed[holder]
 //@   ensures old(holderFailed[holder]) ==> holderFailed[holder]
+
+// ---- the capture-old / apply-new protocol around every persist ----
+// cxN/cxWho/cxPhase/cxCtx: the log of constraint notifications (which constraint, which phase: 1 before update,
+// 2 after update, 3 before delete, 4 the persist itself; with which indexing context). cxPersist: the log position at
+// which the entity was last persisted.
+//@ ghost cxN : Int private
+//@ ghost cxWho : (Array Int Int) private
+//@ ghost cxPhase : (Array Int Int) private
+//@ ghost cxCtx : (Array Int Int) private
+//@ ghost cxPersist : Int private
+//@ define cxLogged(n, who, phase, c) = cxN == old(cxN) + 1 && cxWho == sto(old(cxWho), old(cxN), who) && cxPhase == sto(old(cxPhase), old(cxN), phase) && cxCtx == sto(old(cxCtx), old(cxN), c)
+//@ define cxPrefixKept() = cxN >= old(cxN) && forall(i, i < old(cxN) ==> sel(cxWho, i) == sel(old(cxWho), i), sel(cxWho, i)) && forall(i, i < old(cxN) ==> sel(cxPhase, i) == sel(old(cxPhase), i), sel(cxPhase, i)) && forall(i, i < old(cxN) ==> sel(cxCtx, i) == sel(old(cxCtx), i), sel(cxCtx, i))
+//@ define cxSame() = cxN == old(cxN) && cxWho == old(cxWho) && cxPhase == old(cxPhase) && cxCtx == old(cxCtx) && cxPersist == old(cxPersist)
+//@ define cxSegment(end, cs, n, phase, c) = forall(k, end - n <= k && k < end ==> sel(cxWho, k) == ref(cs[k - (end - n)]), sel(cxWho, k)) && forall(k, end - n <= k && k < end ==> sel(cxPhase, k) == phase, sel(cxPhase, k)) && forall(k, end - n <= k && k < end ==> sel(cxCtx, k) == c, sel(cxCtx, k))
+//@ func (Constraint).ProcessBeforeUpdate
+//@   modifies *, cxN, cxWho, cxPhase, cxCtx
+//@   ensures[logged] cxLogged(0, ref(self), 1, ref(ctx))
+//@   ensures[errors-latch] old(holderFailed[ctx.ErrHolder]) ==> holderFailed[ctx.ErrHolder]
+//@ func (Constraint).ProcessAfterUpdate
+//@   modifies *, cxN, cxWho, cxPhase, cxCtx
+//@   ensures[logged] cxLogged(0, ref(self), 2, ref(ctx))
+//@   ensures[errors-latch] old(holderFailed[ctx.ErrHolder]) ==> holderFailed[ctx.ErrHolder]
+//@ func (Constraint).ProcessBeforeDelete
+//@   modifies *, cxN, cxWho, cxPhase, cxCtx
+//@   ensures[logged] cxLogged(0, ref(self), 3, ref(ctx))
+//@   ensures[errors-latch] old(holderFailed[ctx.ErrHolder]) ==> holderFailed[ctx.ErrHolder]
+// an indexing context is filled in when it is made and not changed afterwards; a chain of contexts shares one error holder
+//@ typeinv IndexingContext: self.Parent != nil ==> self.Parent.ErrHolder == self.ErrHolder
+//@ immutable H.boltz.IndexingContext.Parent
+//@ immutable H.boltz.IndexingContext.Indexer
+//@ immutable H.boltz.IndexingContext.IsCreate
+//@ immutable H.boltz.IndexingContext.RowId.nil
+//@ immutable H.boltz.IndexingContext.RowId.len
+//@ immutable H.boltz.IndexingContext.RowId.arr.
+//@ immutable H.boltz.IndexingContext.ErrHolder.typ
+//@ immutable H.boltz.IndexingContext.ErrHolder.val
+//@ immutable H.boltz.IndexingContext.Ctx.typ
+//@ immutable H.boltz.IndexingContext.Ctx.val
+// every constraint of the context's store is notified once, in order, after the parent context's constraints
+//@ func (*IndexingContext).ProcessBeforeUpdate
+//@   props C03 C04 C15
+//@   nosafety
+//@   modifies *, cxN, cxWho, cxPhase, cxCtx
+//@   ensures[log-only-grows] cxPrefixKept()
+//@   ensures[errors-latch] old(holderFailed[ctx.ErrHolder]) ==> holderFailed[ctx.ErrHolder]
+//@   ensures[own-constraints-last-in-order] !holderFailed[ctx.ErrHolder] ==> cxN >= old(cxN) + len(ctx.Indexer.constraints) && cxSegment(cxN, ctx.Indexer.constraints, len(ctx.Indexer.constraints), 1, ref(ctx))
+//@   ensures[parent-constraints-first] !holderFailed[ctx.ErrHolder] && ctx.Parent != nil ==> cxN >= old(cxN) + len(ctx.Indexer.constraints) + len(ctx.Parent.Indexer.constraints) && cxSegment(cxN - len(ctx.Indexer.constraints), ctx.Parent.Indexer.constraints, len(ctx.Parent.Indexer.constraints), 1, ref(ctx.Parent))
+//@   invariant 1: cxPrefixKept() && (old(holderFailed[ctx.ErrHolder]) ==> holderFailed[ctx.ErrHolder]) && (!holderFailed[ctx.ErrHolder] ==> cxN >= old(cxN) + rangeindex + 1 && cxSegment(cxN, ctx.Indexer.constraints, rangeindex + 1, 1, ref(ctx)) && (ctx.Parent != nil ==> cxN >= old(cxN) + rangeindex + 1 + len(ctx.Parent.Indexer.constraints) && cxSegment(cxN - (rangeindex + 1), ctx.Parent.Indexer.constraints, len(ctx.Parent.Indexer.constraints), 1, ref(ctx.Parent))))
+//@ func (*IndexingContext).ProcessAfterUpdate
+//@   props C03 C04 C15
+//@   nosafety
+//@   modifies *, cxN, cxWho, cxPhase, cxCtx
+//@   ensures[log-only-grows] cxPrefixKept()
+//@   ensures[errors-latch] old(holderFailed[ctx.ErrHolder]) ==> holderFailed[ctx.ErrHolder]
+//@   ensures[own-constraints-last-in-order] !holderFailed[ctx.ErrHolder] ==> cxN >= old(cxN) + len(ctx.Indexer.constraints) && cxSegment(cxN, ctx.Indexer.constraints, len(ctx.Indexer.constraints), 2, ref(ctx))
+//@   ensures[parent-constraints-first] !holderFailed[ctx.ErrHolder] && ctx.Parent != nil ==> cxN >= old(cxN) + len(ctx.Indexer.constraints) + len(ctx.Parent.Indexer.constraints) && cxSegment(cxN - len(ctx.Indexer.constraints), ctx.Parent.Indexer.constraints, len(ctx.Parent.Indexer.constraints), 2, ref(ctx.Parent))
+//@   invariant 1: cxPrefixKept() && (old(holderFailed[ctx.ErrHolder]) ==> holderFailed[ctx.ErrHolder]) && (!holderFailed[ctx.ErrHolder] ==> cxN >= old(cxN) + rangeindex + 1 && cxSegment(cxN, ctx.Indexer.constraints, rangeindex + 1, 2, ref(ctx)) && (ctx.Parent != nil ==> cxN >= old(cxN) + rangeindex + 1 + len(ctx.Parent.Indexer.constraints) && cxSegment(cxN - (rangeindex + 1), ctx.Parent.Indexer.constraints, len(ctx.Parent.Indexer.constraints), 2, ref(ctx.Parent))))
+//@ func (*IndexingContext).ProcessBeforeDelete
+//@   props C03 C04 C15
+//@   nosafety
+//@   modifies *, cxN, cxWho, cxPhase, cxCtx
+//@   ensures[log-only-grows] cxPrefixKept()
+//@   ensures[errors-latch] old(holderFailed[ctx.ErrHolder]) ==> holderFailed[ctx.ErrHolder]
+//@   ensures[own-constraints-last-in-order] !holderFailed[ctx.ErrHolder] ==> cxN >= old(cxN) + len(ctx.Indexer.constraints) && cxSegment(cxN, ctx.Indexer.constraints, len(ctx.Indexer.constraints), 3, ref(ctx))
+//@   ensures[parent-constraints-first] !holderFailed[ctx.ErrHolder] && ctx.Parent != nil ==> cxN >= old(cxN) + len(ctx.Indexer.constraints) + len(ctx.Parent.Indexer.constraints) && cxSegment(cxN - len(ctx.Indexer.constraints), ctx.Parent.Indexer.constraints, len(ctx.Parent.Indexer.constraints), 3, ref(ctx.Parent))
+//@   invariant 1: cxPrefixKept() && (old(holderFailed[ctx.ErrHolder]) ==> holderFailed[ctx.ErrHolder]) && (!holderFailed[ctx.ErrHolder] ==> cxN >= old(cxN) + rangeindex + 1 && cxSegment(cxN, ctx.Indexer.constraints, rangeindex + 1, 3, ref(ctx)) && (ctx.Parent != nil ==> cxN >= old(cxN) + rangeindex + 1 + len(ctx.Parent.Indexer.constraints) && cxSegment(cxN - (rangeindex + 1), ctx.Parent.Indexer.constraints, len(ctx.Parent.Indexer.constraints), 3, ref(ctx.Parent))))
+// a store's indexing context: the store's own constraints, the row, the given error holder, chained to the parent store's
+//@ func (storeInternal).newIndexingContext
+//@   pure
+//@   ensures[a-context-for-this-row] result != nil && fresh(result) && result.IsCreate == isCreate && result.Ctx == ctx && str(result.RowId) == id && result.ErrHolder == holder
+//@ func (*BaseStore).newIndexingContext
+//@   props C03 C04 C15
+//@   nosafety
+//@   modifies *
+//@   ensures[a-context-for-this-row] result != nil && fresh(result) && result.IsCreate == isCreate && result.Ctx == ctx && str(result.RowId) == id && result.ErrHolder == holder
+//@   ensures[the-store's-constraints] result.Indexer == store.Indexer
+//@   ensures[chained-to-the-parent-store] (result.Parent != nil) == (store.parent != nil) && (result.Parent != nil ==> result.Parent.ErrHolder == holder)
+// the persist itself is logged at the position it happens
+//@ func (EntityStrategy).PersistEntity
+//@   modifies *, cxPersist
+//@   ensures[persist-logged] cxPersist == cxN
+// link cleanup is not a constraint notification
+//@ func (LinkCollection).EntityDeleted
+//@   modifies *
+//@ func (RefCountedLinkCollection).EntityDeleted
+//@   modifies *
+//@ func (*BaseStore).cleanupLinks
+//@   props C03
+//@   nosafety
+//@   modifies *
+//@   invariant 1: true
+//@   invariant 2: true
+// assumed: an entity's id does not change while it is being stored (GetId is a function of the entity)
+//@ spec entId(e Int) Str
+//@ func (Entity).GetId
+//@   pure
+//@   ensures[the-entity's-id] result == entId(ref(self))
